@@ -41,8 +41,8 @@ def v(tag):
     return A.sym("v" + tag)
 
 
-def reference(name, k):
-    """Expected payload after k present samples (None = absent): dict of sympy exprs."""
+def reference(name, k, TAGS=TAGS):
+    """Expected payload after k present samples with the given tags (None = absent): dict of sympy exprs."""
     x = [v(t) for t in TAGS]
     if name == "DerivativeStream":
         if k < 2:
@@ -190,6 +190,66 @@ def check_stream(chk, prog, sim, name):
         chk.discharge(key)
 
 
+RESETS = {"DerivativeStream": "NE", "IntegralStream": "NE", "AccelerationToState": "E", "VelocityToState": "E", "PositionToState": "E"}
+
+
+def check_interleaved(chk, prog, sim, name):
+    """Runs with an absent / error event in the middle: staging and values restart (reset) or continue (ignored)."""
+    key = "events:" + name
+    chk.obligation(key, "present samples interleaved with absent / error events: " + name)
+    up = prog.find_fn(name="update", self_name=name, trait="Updatable")
+    get = prog.find_fn(name="get", self_name=name, trait="Getter")
+    ug, gg = sim.identity_gargs(up), sim.identity_gargs(get)
+    unit = Struct(Q.unit_ty(prog), tuple(Const(x, prim("i8")) for x in EXPECTED_UNIT.get(name, (1, 0))))
+    ok = True
+    for ev in ("E", "N"):
+        script = [("S", "a"), ("S", "b"), (ev, "x"), ("S", "c"), ("S", "d")]
+        st0, oid, _ = N.fresh_object(sim, prog, name)
+        frontier = [st0]
+        hist = []
+        for cat, tag in script:
+            if cat == "S":
+                hist.append(tag)
+            elif ev in RESETS[name]:
+                hist = []
+            nxt = []
+            for st in frontier:
+                for leaf in N.update_with(sim, up, ug, st, oid, cat, tag, value=sample(sim, prog, tag, unit) if cat == "S" else None):
+                    chk.evaluated(1, nontrivial=(key, ev, tag, repr(leaf.pc)))
+                    if leaf.kind != "return":
+                        chk.violation("analysis-incomplete" if leaf.kind == "unsupported" else "C10.panic", "%s:%s" % (key, leaf.kind), "%s with events %s: update %s %s" % (name, script, leaf.kind, leaf.info.get("msg")), fn=up["pretty"])
+                        ok = False
+                        continue
+                    nxt.append(leaf.state)
+                    if cat != "S":
+                        continue
+                    for gl in N.get_on(sim, get, gg, leaf.state, oid):
+                        chk.evaluated(1)
+                        g = K.classify_output(sim, gl.state, gl.value) if gl.kind == "return" else None
+                        ref = reference(name, len(hist), hist + ["_"] * 4)
+                        if ref is None:
+                            good = g == ("N",)
+                        else:
+                            good = bool(g) and g[0] == "S" and g[1] == Sym("t" + tag)
+                            if good:
+                                try:
+                                    if "value" in ref:
+                                        got = {"value": A.to_sympy(g[2].fields[0])}
+                                    else:
+                                        names = [f["name"] for f in prog.adt_by_name("State")["variants"][0]["fields"]]
+                                        got = {n: A.to_sympy(f) for n, f in zip(names, g[2].fields)}
+                                    good = all(A.equal(got[c], e) for c, e in ref.items())
+                                except Exception:
+                                    good = False
+                        if not good:
+                            chk.violation("C10.events", "%s:%s:after-%s" % (key, ev, tag), "%s fed %s: after sample %s get() returns %r; expected the result of a run made of samples %s only"
+                                          % (name, [c + ":" + t for c, t in script], tag, g, hist), fn=up["pretty"], file=loc(up["span"]))
+                            ok = False
+            frontier = nxt
+    if ok:
+        chk.discharge(key)
+
+
 def run(chk):
     prog = load_config("K1")
     chk.configs.append("K1")
@@ -197,12 +257,14 @@ def run(chk):
     chk.rule("C10.value", "payload == reference recurrence as rational functions over the reals")
     chk.rule("C10.time", "output time == newest sample time")
     chk.rule("C10.units", "output units U/s, U*s; to-state unit gate panics iff unit differs")
+    chk.rule("C10.events", "an absent/error event in the middle of a run resets (or is ignored) as documented: later outputs equal those of the remaining samples alone")
     chk.rule("C10.shift", "affine-time typing: only time differences are converted to float")
     sim = S.Sim(prog)
     for name in ("DerivativeStream", "IntegralStream", "AccelerationToState", "VelocityToState", "PositionToState"):
         if not prog.has_adt(name):
             raise AnchorMissing(name)
         check_stream(chk, prog, sim, name)
+        check_interleaved(chk, prog, sim, name)
     chk.assume("real-arithmetic model: forward error versus an f64 reference is NOT decided",
                "all samples of one run carry the same (symbolic) unit", "reset / absent / error events are C05's obligations; this check covers runs of present samples")
     chk.extra["std_models"] = sorted(sim.stats["models_used"])
